@@ -61,9 +61,13 @@ def check_clock(prog: Program, rep: Report) -> None:
             # initial clock: Time(0.0, 0.0) or Time.from_float(-interval)
             init = prog.resolve_method(h, "__init__")
             if init:
+                RI = Resolver(init[1])
                 for n in ast.walk(init[1]):
                     if isinstance(n, ast.Assign) and self_attr(n.targets[0]) == "_event_time":
                         vals = [n.value.body, n.value.orelse] if isinstance(n.value, ast.IfExp) else [n.value]
+                        # a local that is assigned in the branches of the constructor: every value it can hold
+                        if isinstance(n.value, ast.Name) and n.value.id in RI.all_defs:
+                            vals = [v for _, v in RI.all_defs[n.value.id]]
                         for v in vals:
                             t = norm(v)
                             ok = t in ("Time(0.0, 0.0)", "Time(0, 0)") or (t.startswith("Time.from_float(-") and
